@@ -976,10 +976,22 @@ func (it *k4interp) eval1(fr *k4frame, v ssa.Value) (k4val, error) {
 					n := 0
 					cp := func(sv k4val) {
 						for i := 0; i < sv.ln; i++ {
-							if v, ok := it.mem[fmt.Sprintf("%s[%d]", sv.s, sv.off+i)]; ok {
+							src := fmt.Sprintf("%s[%d]", sv.s, sv.off+i)
+							if v, ok := it.mem[src]; ok {
 								it.mem[fmt.Sprintf("%s[%d]", base, n)] = v
+							} else if it.hasSubEntries(src) {
+								// an aggregate element held field by field (a literal built in a
+								// reused temporary): appending copies it, so freeze its fields now
+								it.frameID++
+								snap := fmt.Sprintf("S%d", it.frameID)
+								for mk, mv := range it.mem {
+									if strings.HasPrefix(mk, src+".") || strings.HasPrefix(mk, src+"[") {
+										it.mem[snap+mk[len(src):]] = mv
+									}
+								}
+								it.mem[fmt.Sprintf("%s[%d]", base, n)] = k4val{kind: 3, s: snap}
 							} else {
-								it.mem[fmt.Sprintf("%s[%d]", base, n)] = k4val{kind: 3, s: fmt.Sprintf("%s[%d]", sv.s, sv.off+i)}
+								it.mem[fmt.Sprintf("%s[%d]", base, n)] = k4val{kind: 3, s: src}
 							}
 							n++
 						}
@@ -1048,7 +1060,7 @@ func (it *k4interp) eval1(fr *k4frame, v ssa.Value) (k4val, error) {
 				return r, err
 			}
 		}
-		if cal != nil && cal.Blocks != nil && (isBoundWrapper(cal) || (it.inline != nil && it.inline(cal)) || (k4WrapperInline != nil && k4WrapperInline(cal) && !it.onStack(cal)) || (isNewHelper(cal) && (it.recurseNew || !it.onStack(cal))) || (cal.Parent() != nil && len(it.stack) > 0 && rootFunc(cal) == rootFunc(it.stack[0]) && !it.onStack(cal))) {
+		if cal != nil && cal.Blocks != nil && (isBoundWrapper(cal) || (it.inline != nil && it.inline(cal)) || (k4WrapperInline != nil && k4WrapperInline(cal) && !it.onStack(cal)) || (isNewHelper(cal) && (it.recurseNew || !it.onStack(cal))) || (cal.Parent() != nil && len(it.stack) > 0 && rootFunc(cal) == rootFunc(it.stack[0]) && (it.recurseNew || !it.onStack(cal)))) {
 			var args []k4val
 			for _, a := range x.Call.Args {
 				av, err := it.eval(fr, a)
@@ -1382,6 +1394,15 @@ var boolT types.Type = types.Typ[types.Bool]
 func (it *k4interp) onStack(f *ssa.Function) bool {
 	for _, g := range it.stack {
 		if g == f {
+			return true
+		}
+	}
+	return false
+}
+
+func (it *k4interp) hasSubEntries(k string) bool {
+	for mk := range it.mem {
+		if strings.HasPrefix(mk, k+".") || strings.HasPrefix(mk, k+"[") {
 			return true
 		}
 	}
